@@ -79,7 +79,8 @@ def run(ctx, spec):
         "implementation's own pre-state of each step (so one divergence does not cascade).")
     rng = random.Random(seed ^ 0x5EED)
     k = spec.get("coq_sample", {}).get(tier, 20)
-    sample = [c for c in rng.sample(cases, min(k, len(cases))) if c["model"] != [-1]]
+    smallish = [c for c in cases if c["model"] != [-1] and len(json.dumps(c["cmd"])) + len(json.dumps(c["model"])) < 120000]
+    sample = rng.sample(smallish, min(k, len(smallish)))       # (a megabyte-sized literal overflows coqc's stack)
     coq_fail = coq_eval_cases([(c["cmd"], c["model"]) for c in sample], f"{pid}_{tier}") if sample else []
     outcome["correspondence"] = dict(
         cases=report["cases"], ops=report["ops"],
@@ -106,6 +107,9 @@ def run(ctx, spec):
     hist_viol = []
     if pid == "C05":
         hist_viol = history_part(cases, outcome)
+    # ---- C06: the step-limit flag for EVERY limit of a range, stepped up to and past the limit ----
+    if pid == "C06":
+        hist_viol = limit_part(ctx, outcome, rng)
     # ---- exhaustive bounded exploration: complete reachable transition graphs of small scenarios ----
     ex_viol = explore_part(ctx, spec, outcome, rng)
     if not bad and not rdiffs and not mon_fails and not ex_viol and not hist_viol:
@@ -180,6 +184,36 @@ def run(ctx, spec):
     found = hist_viol + ex_viol + found
     outcome["violations"] += found[:5] if found else unexplained[:3]
     return outcome
+
+
+def limit_part(ctx, outcome, rng):
+    """for every step limit 1..N: an environment is stepped limit + 2 times (cheap scans, one reset in between for
+    some); the flag must be False before the limit-th call since the reset and True from it on"""
+    from nasim.envs.environment import NASimEnv
+    top = 130 if ctx["tier"] == "quick" else 1100
+    base = scen.random_sd(rng, max_subnets=2, max_size=1, small=True)
+    viol, calls = [], 0
+    for limit in range(1, top):
+        sd = dict(base, limit=limit)
+        env = NASimEnv(scen.sd_to_scenario(sd), fully_obs=bool(limit % 2), flat_actions=True, flat_obs=True)
+        pre = rng.randrange(3) if limit > 3 else 0
+        for _ in range(pre):
+            env.step(0)
+        if pre:
+            env.reset()
+        for n in range(1, limit + 3):
+            _, _, _, trunc, _ = env.step(0 if n % 3 else 1)
+            calls += 1
+            if bool(trunc) != (n >= limit):
+                viol.append(dict(kind="history", property="C06", failing_input_found=True, scenario=sd, modes=[limit % 2, 1, 1],
+                                 what=f"with step_limit = {limit} the step-limit flag after {n} step() calls since the last "
+                                      f"reset is {bool(trunc)}", ops=[[1, [0, 0], 0]] * n, steps_before_reset=pre))
+                break
+        if len(viol) >= 2:
+            break
+    outcome["correspondence"]["step_limits_swept"] = [1, top - 1]
+    outcome["evaluations"] += calls
+    return viol
 
 
 def history_part(cases, outcome):
